@@ -120,6 +120,9 @@ def scenarios():
               Op("get_many", ["k", "m", "n"]), {}))
     S.append(("gets_many-2", setcmd(b"k", b"1") + setcmd(b"m", b"22"), Op("gets_many", ["m", "k"]), {}))
     S.append(("get_many-big", setcmd(b"k", _val(4090)) + setcmd(b"m", _val(4100)), Op("get_many", ["k", "m"]), {}))
+    LK = b"L" * 180 + b"-key"
+    S.append(("get-longkey", setcmd(LK, b"v1"), Op("get", LK), {}))
+    S.append(("gets_many-longkeys", setcmd(LK, b"v1") + setcmd(LK + b"2", b""), Op("gets_many", [LK, LK + b"2"]), {}))
     S.append(("stats", b"", Op("stats"), {}))
     S.append(("stats-args", b"", Op("stats", "settings"), {}))
     for name in ("set", "add", "replace", "append", "prepend"):
@@ -265,7 +268,7 @@ def _worker(job, chk):
                     {"scenario": name, "cuts": list(cuts), "eintr": list(ei)})
     chk.count("scenarios")
     chk.maximum("max_reply_bytes", len(stream))
-    if idx in (0, 5, 40):
+    if idx in (0, 5, 42):
         chk.sample({"scenario": name, "op": op.label, "reply": stream[:80], "reply_len": len(stream),
                     "segmentations_run": nseg, "example_cuts": list(cuts)[:6]})
 
